@@ -42,7 +42,7 @@ _RE_STATES = re.compile(r"(\d+) states generated, (\d+) distinct states found, (
 _RE_DEPTH = re.compile(r"depth of the complete state graph search is (\d+)")
 _RE_REJECT = re.compile(r'REJECT\|([^\n]*?)"?\s*$', re.M)
 _RE_INFO = re.compile(r'INFO\|([^\n]*?)"?\s*$', re.M)
-_RE_COV = re.compile(r"^<(\w+) line \d+, col \d+ to line \d+, col \d+ of module (\w+)>: (\d+):(\d+)",
+_RE_COV = re.compile(r"^<(\w+) line \d+, col \d+ to line \d+, col \d+ of module (\w+)(?: \([\d ]+\))?>: (\d+):(\d+)",
                      re.M)
 
 
